@@ -40,6 +40,28 @@ def exists_call_with(ctx, fd, o, callee, argi, need, targ=None, need_targ=None, 
                       ", ".join(i.line() for i in sites)), loc=sites[0].line())
 
 
+def every_vehicle_type(ctx, key, tag, fd=None):
+    if fd is None:
+        fd = ctx.fd(key)
+        if fd is None:
+            o = ctx.ob("%s.flow-06c-every-vehicle-type" % tag, "T1", key, "anchor")
+            o.status = "anchor-missing"
+            o.detail = "function %s not found" % key
+            return
+    o = ctx.ob("%s.flow-06c-every-vehicle-type" % tag, "T1", key,
+               "inside the loop over all vehicle types the optimised transition is stored unconditionally")
+    from .C03 import only_loop_controls
+    ins_ = [c for c in fd.body.calls() if (c.callee or "").endswith("HashMap::insert") and any("Transition" in t for t in c.targs)]
+    if not ins_:
+        ctx.bad(o, "no insert into the map of optimised transitions found")
+    else:
+        oth = only_loop_controls(fd, ins_[0])
+        ctx.decide(o, not oth and call("model::vehicle_types::VehicleTypes::iter") in fd.slice(seed_blocks=[ins_[0].bb])["atoms"],
+                   "only the loop over vehicle_types controls the insert",
+                   "a vehicle type can be skipped (extra condition at %s): set_next_day_transitions then installs a map without it and "
+                   "next_day_transition_of panics for that type" % (oth[0][0].line() if oth else "?"), loc=ins_[0].line())
+
+
 def chain(ctx, key, tag):
     o, fd = ctx.require_fn("%s.flow-01-improve-depots" % tag, "T4", key,
                            "start solution of the min-cost-flow solver is the receiver of improve_depots")
@@ -103,18 +125,7 @@ def chain(ctx, key, tag):
     rs = fd.ret_slice()
     ctx.decide(o, slice_has_call_def(rs, OUT) is not None, "return value comes from create_output_json",
                "return value does not come from create_output_json")
-    o = ctx.ob("%s.flow-06c-every-vehicle-type" % tag, "T1", key,
-               "inside the loop over all vehicle types the optimised transition is stored unconditionally")
-    from .C03 import only_loop_controls
-    ins_ = [c for c in fd.body.calls() if (c.callee or "").endswith("HashMap::insert") and any("Transition" in t for t in c.targs)]
-    if not ins_:
-        ctx.bad(o, "no insert into the map of optimised transitions found")
-    else:
-        oth = only_loop_controls(fd, ins_[0])
-        ctx.decide(o, not oth and call("model::vehicle_types::VehicleTypes::iter") in fd.slice(seed_blocks=[ins_[0].bb])["atoms"],
-                   "only the loop over vehicle_types controls the insert",
-                   "a vehicle type can be skipped (extra condition at %s): set_next_day_transitions then installs a map without it and "
-                   "next_day_transition_of panics for that type" % (oth[0][0].line() if oth else "?"), loc=ins_[0].line())
+    every_vehicle_type(ctx, key, tag, fd)
     # no Schedule -> Schedule stage after the alignment (C05.R2 shares this)
     o = ctx.ob("%s.flow-12-nothing-after-alignment" % tag, "T4", key,
                "no schedule-producing call sits between the end-depot alignment and the output")
@@ -146,6 +157,20 @@ def chain(ctx, key, tag):
 def rules(ctx):
     chain(ctx, "server::solve_instance", "R1.server")
     chain(ctx, "internal::run", "R2.internal")
+    # the alignment itself (shared with C05.R1): each end depot is the successor's start depot, for every vehicle
+    from . import C05
+    before = len(ctx.obligations)
+    C05.rules(ctx)
+    ctx.obligations[before:] = [o for o in ctx.obligations[before:] if "/R1." in o.id]
+    for o in ctx.obligations[before:]:
+        o.id = o.id.replace("C16/R1.", "C16/R4.alignment.")
+    # the reported cycles are the schedule's cycles, all of them (shared with C03.R2 / C05.R3)
+    from . import C03
+    before = len(ctx.obligations)
+    C03.completeness(ctx)
+    ctx.obligations[before:] = [o for o in ctx.obligations[before:] if "rotation-cycle" in o.id or "every-vehicle-reported" in o.id]
+    for o in ctx.obligations[before:]:
+        o.id = o.id.replace("C16/R2.", "C16/R5.json.")
     # R3: set_next_day_transitions stores its argument
     o, fd = ctx.require_fn("R3.set-transitions-stores-argument", "T1", SETT,
                            "set_next_day_transitions puts its argument into next_period_transitions")
